@@ -412,8 +412,10 @@ MatchFrags(c, rs, gg) == {FragOfRow(i, gg) : i \in {j \in 1..Len(rs) : Eval(c, r
 
 SetSeq(S) == SetToSortSeq(S, <)
 
-\* the as-implemented model: every deviation that is an open known finding
-AsImplemented == {"right_bound_overwrites", "unknown_op_drops_element", "matchphrase_as_equality", "in_is_error"}
+\* the as-implemented model: every deviation that is an OPEN known finding. The deviations of the repaired findings
+\* (right_bound_overwrites F-C20-1, unknown_op_drops_element F-C20-3 LIKE/MATCH part, matchphrase_as_equality F-C20-4)
+\* stay in the specification as mutation seeds; a real result that differs from the design is then a violation.
+AsImplemented == {"in_is_error"}
 
 \* the condition fails (error or panic) instead of selecting: unbalanced RPN, or (as implemented) IN
 Fails(dv, rpn) == rpn # <<>> /\ (~StackOK(rpn, 1, 0) \/ ("in_is_error" \in dv /\ HasIn(rpn)))
